@@ -524,6 +524,17 @@ def load_database(dbpath, rootdir):
                 for f in entry["include_paths"]
             ]
 
+            # A compiler looks for files named by -include in the directory
+            # the command runs in before it searches the include paths.
+            entry["include_files"] = [
+                (
+                    os.path.abspath(os.path.join(filedir, f))
+                    if os.path.isfile(os.path.join(filedir, f))
+                    else f
+                )
+                for f in entry["include_files"]
+            ]
+
             configuration += [entry]
 
             # Print variables for debugging purposes.
